@@ -46,6 +46,9 @@ def minLoopScore : Nat := Tables.opt_min_loop_score
 def maxSubStack : Int := Tables.opt_max_sub_stack
 def maxLoopStack : Int := Tables.opt_max_loop_stack
 def maxLoopCount : Nat := Tables.opt_max_loop_count   -- Optimizer::max_loop_count
+/-- `Optimizer::max_src_stack`: the stack budget of the phrase a subroutine is made from (repair of
+D18: the source occurrence is replaced by a call as well) — the depth limit of the song validator -/
+def maxSrcStack : Int := Tables.opt_max_src_stack
 /-- `max_fold` of `apply_match`: the number of repetitions one fold erases at most (the first
 repetition stays in the track as the loop body) -/
 def maxFold : Nat := maxLoopCount - Tables.opt_loop_fold_kept
@@ -168,21 +171,32 @@ def cGet (c : Counter) (k : Nat) : Nat := (c.lookup k).getD 0
 def cSet (c : Counter) (k v : Nat) : Counter :=
   if c.any (·.1 == k) then c.map (fun p => if p.1 == k then (k, v) else p) else c ++ [(k, v)]
 
-/-- prefix lengths of the source phrase that end outside of any nested loop -/
-def balancedPrefixes (src : List Event) (start : Nat) : List Bool :=
-  let rec go (evs : List Event) (depth : Int) (acc : List Bool) : List Bool :=
+/-- the `balanced` vector of `find_match`: prefix lengths of the source phrase that end outside of any
+nested loop; the vector ends where the loop structure of the track ends (`depth < 0`) and — repair
+of D18 — where the source phrase has no room on the stack for a call (`sa` = the analyser of the
+source track; `i` = the index of the event in the track) -/
+def sourcePrefixes (sa : SA) (src : List Event) (start : Nat) : Except OErr (List Bool) :=
+  let rec go (evs : List Event) (i : Nat) (depth : Int) (acc : List Bool) : Except OErr (List Bool) :=
     match evs with
-    | [] => acc.reverse
+    | [] => .ok acc.reverse
     | e :: rest =>
-      if depth < 0 then acc.reverse else
-      let depth := if e.type = ev_LOOP_START then depth + 1 else if e.type = ev_LOOP_END then depth - 1 else depth
-      go rest depth ((depth == 0) :: acc)
-  true :: go (src.drop start) 0 []
+      if depth < 0 then .ok acc.reverse else
+      match sa.eventList[i]? with
+      | none => .error .stackListOOB
+      | some u =>
+        if u + sa.baseUsage ≥ maxSrcStack then .ok acc.reverse else
+        let depth := if e.type = ev_LOOP_START then depth + 1 else if e.type = ev_LOOP_END then depth - 1 else depth
+        go rest (i + 1) depth ((depth == 0) :: acc)
+  match go (src.drop start) start 0 [] with
+  | .error x => .error x
+  | .ok l => .ok (true :: l)
 
 /-- `find_match` -/
 def findMatch (song : Song) (m : SAMap) (srcT srcStart : Nat) : Except OErr Match := do
   let src ← match song.track? srcT with | some s => pure s | none => throw OErr.missingTrack
-  let balanced := balancedPrefixes src srcStart
+  -- `Stack_Analyzer& src_stack = stack_analyzer[src_track]`
+  let srcSA := getSA m srcT
+  let balanced ← sourcePrefixes srcSA src srcStart
   let isBal (len : Nat) : Bool := (balanced[len]?).getD false
   let mut mt : Match := {}
   let mut subCount : Counter := []
@@ -193,6 +207,10 @@ def findMatch (song : Song) (m : SAMap) (srcT srcStart : Nat) : Except OErr Matc
       let mut loopDepth : Int := 0
       let mut loopValid := true
       for dstPos in List.range' (srcStart + 1) (dst.length - (srcStart + 1)) do
+        -- repair of D18: the new loop encloses every event of `[srcStart, dstPos)`
+        match srcSA.eventList[dstPos - 1]? with
+        | none => throw OErr.stackListOOB
+        | some u => if u + srcSA.baseUsage ≥ maxLoopStack then loopValid := false
         let ty := (dst[dstPos]?).map (·.type) |>.getD 0
         if ty = ev_SEGNO then loopValid := false
         else if (ty = ev_LOOP_END ∨ ty = ev_LOOP_BREAK) ∧ loopDepth = 0 then loopValid := false
